@@ -1,4 +1,5 @@
 import BreezyVerif.Model.C17
+import BreezyVerif.Lemmas.C17
 import BreezyVerif.Props.C18
 /-!
 C17 — the four three-way merge laws, for all trees (functions `Id → Option
@@ -142,5 +143,478 @@ example : ∃ base this other : Tree, ExecNorm other ∧ (∀ i, this i = base i
     by_cases h0 : i = 0 <;> by_cases h1 : i = 1 <;> by_cases h2 : i = 2 <;> simp_all
   · intro h; have := congrFun h 1; simp at this
   · intro h; have := congrFun h 2; simp at this
+
+/-! ### the loop body of `_compute_transform` on `_entries3` triples, and copies -/
+
+/-- refinement: on the triples read off three entries of one file (an element
+that `iter_changes(other vs base)` reports: `o ≠ b`), the literal loop body is
+the per-entry function the laws are proved about -/
+theorem mergeChange_ofEntries (b o t : Option Entry) (h : o ≠ b) :
+    mergeChange (Change.ofEntries b o t false) = mergeEntry b t o := by
+  unfold mergeChange mergeEntry
+  simp only [normCopy_ofEntries_false, namesStepC_ofEntries, contentsStepC_ofEntries, execStepC_ofEntries, h,
+    if_false]
+
+/-- a COPY reported by `iter_changes` (git trees: OTHER's entry `oe` at the new
+path, paired with a source file whose entries in BASE and THIS are `sb`, `st`)
+is merged as a plain add: the merged file is OTHER's entry — its own parent,
+name, kind, content and executable bit — whatever the source's attributes are,
+and no conflict is reported -/
+theorem mergeChange_copied (sb st : Option Entry) (oe : Entry) (hn : EntryNorm (some oe)) :
+    mergeChange (Change.ofEntries sb (some oe) st true) = ⟨some oe, []⟩ := by
+  have h0 : mergeChange (Change.ofEntries sb (some oe) st true)
+      = mergeChange (Change.ofEntries none (some oe) none false) := by
+    unfold mergeChange
+    simp only [normCopy_ofEntries_copied, normCopy_ofEntries_false]
+  rw [h0, mergeChange_ofEntries none (some oe) none (by simp)]
+  exact mergeEntry_this_eq_base none (some oe) hn
+
+/-- the `changed` flag of an element (git: any mode or blob change; bzr: text or
+kind change) only matters when OTHER's kind+content differs from BASE's: so
+reading it off the entries (`Change.ofEntries`) loses nothing -/
+theorem mergeChange_changed_irrelevant (c : Change) (hc : c.copied = false) (h : c.pairs3.other = c.pairs3.base) :
+    mergeChange { c with changed := true } = mergeChange { c with changed := false } := by
+  unfold mergeChange
+  simp only [normCopy, hc, Bool.false_eq_true, if_false, contentsStepC, namesStepC, execStepC, namesStepW, execStepW, h,
+    if_true, contentsOnP]
+
+example : (⟨true, ⟨some (.file, 1), some (.file, 1), some (.file, 2)⟩, ⟨some (some 0), some (some 0), some (some 0)⟩,
+    ⟨some 1, some 1, some 1⟩, ⟨some false, some true, some false⟩, false⟩ : Change).pairs3.other = some (.file, 1) := rfl
+
+/-- the copy normalisation matters: without it a copy whose source THIS has
+modified would be merged against the source (here: a text merge of the copy
+with the source's edit and the source's executable bit in play) -/
+theorem copy_without_normalisation_witness :
+    (mergeChangeRaw (Change.ofEntries (some ⟨some 0, 1, .file, 1, true⟩) (some ⟨some 0, 2, .file, 1, false⟩)
+        (some ⟨some 0, 1, .file, 3, true⟩) true)) ≠ ⟨some ⟨some 0, 2, .file, 1, false⟩, []⟩ ∧
+    (mergeChange (Change.ofEntries (some ⟨some 0, 1, .file, 1, true⟩) (some ⟨some 0, 2, .file, 1, false⟩)
+        (some ⟨some 0, 1, .file, 3, true⟩) true)) = ⟨some ⟨some 0, 2, .file, 1, false⟩, []⟩ := by decide
+
+example : EntryNorm (some ⟨some 0, 2, .file, 1, true⟩) := by
+  intro x hx hk; cases hx; simp at hk
+
+/-! ### attribute-wise disjoint changes (relationship A5) -/
+
+/-- both sides keep the file and, attribute by attribute (name, parent,
+kind+content, executable bit), at most one side changed it -/
+def AttrDisjoint (be te oe : Entry) : Prop :=
+  (te.name = be.name ∨ oe.name = be.name) ∧ (te.parent = be.parent ∨ oe.parent = be.parent) ∧
+  ((te.kind, te.content) = (be.kind, be.content) ∨ (oe.kind, oe.content) = (be.kind, be.content)) ∧
+  (te.exec = be.exec ∨ oe.exec = be.exec)
+
+/-- every attribute from the side that changed it (`sel b t o = if o = b then t else o`) -/
+def attrUnion (be te oe : Entry) : Entry :=
+  let kc := sel (be.kind, be.content) (te.kind, te.content) (oe.kind, oe.content)
+  ⟨sel be.parent te.parent oe.parent, sel be.name te.name oe.name, kc.1, kc.2,
+   if kc.1 = .file then sel be.exec te.exec oe.exec else false⟩
+
+/-- THIS renames / moves / chmods / edits a file and OTHER changes OTHER
+attributes of the same file: every attribute is taken from the side that
+changed it, without conflicts -/
+theorem mergeEntry_attr_disjoint (be te oe : Entry) (hnt : EntryNorm (some te))
+    (hd : AttrDisjoint be te oe) :
+    mergeEntry (some be) (some te) (some oe) = ⟨some (attrUnion be te oe), []⟩ := by
+  obtain ⟨h1, h2, h3, h4⟩ := hd
+  by_cases hob : oe = be
+  · subst hob
+    have ht := hnt te rfl
+    obtain ⟨p, n, k, c, x⟩ := te
+    cases k <;> simp_all [mergeEntry, attrUnion, sel]
+  · have hob' : ¬ (some oe = some be) := fun e => hob (Option.some.inj e)
+    obtain ⟨st, hst, hc⟩ := contentsStep_one_side be te oe h3
+    simp only [mergeEntry, hob', if_false, namesStep_one_side be te oe h1 h2, hc,
+      execStep_one_side be te oe h4, List.append_nil]
+    cases st <;> simp_all [assemble, attrUnion]
+
+/-- per id: one side left the entry alone, or both keep it and changed different attributes -/
+def AttrDisjointAt (b t o : Option Entry) : Prop :=
+  t = b ∨ o = b ∨ ∃ be te oe, b = some be ∧ t = some te ∧ o = some oe ∧ AttrDisjoint be te oe
+
+def attrUnionAt (b t o : Option Entry) : Option Entry :=
+  if o = b then t else if t = b then o else
+    match b, t, o with
+    | some be, some te, some oe => some (attrUnion be te oe)
+    | _, _, _ => none
+
+/-- tree level: per id, one side left the entry alone or the two sides changed
+different attributes of it ⇒ the merged tree takes every change of either side,
+without conflicts (generalises `merge_disjoint` to attribute granularity) -/
+theorem merge_attr_disjoint (base this other : Tree) (hnt : ExecNorm this) (hno : ExecNorm other)
+    (hd : ∀ i, AttrDisjointAt (base i) (this i) (other i)) :
+    merge3 base this other = (fun i => attrUnionAt (base i) (this i) (other i)) ∧
+      ∀ i, conflictsAt base this other i = [] := by
+  have h : ∀ i, mergeEntry (base i) (this i) (other i) = ⟨attrUnionAt (base i) (this i) (other i), []⟩ := by
+    intro i
+    unfold attrUnionAt
+    by_cases ho : other i = base i
+    · simp [ho, mergeEntry_other_eq_base]
+    · by_cases ht : this i = base i
+      · simp only [ho, if_false, ht, if_true]
+        exact mergeEntry_this_eq_base _ _ (fun x hx => hno i x hx)
+      · rcases hd i with h | h | ⟨be, te, oe, hb, hte, hoe, hdis⟩
+        · exact absurd h ht
+        · exact absurd h ho
+        · simp only [ho, ht, if_false]
+          rw [hb, hte, hoe]
+          exact mergeEntry_attr_disjoint be te oe (fun x hx => hnt i x (hte ▸ hx)) hdis
+  constructor
+  · funext i; simp [merge3, h]
+  · intro i; simp [conflictsAt, h]
+
+/-- non-vacuity: THIS renames and moves, OTHER edits and sets the executable bit -/
+example : AttrDisjoint ⟨some 0, 1, .file, 1, false⟩ ⟨some 5, 2, .file, 1, false⟩ ⟨some 0, 1, .file, 9, true⟩ ∧
+    attrUnion ⟨some 0, 1, .file, 1, false⟩ ⟨some 5, 2, .file, 1, false⟩ ⟨some 0, 1, .file, 9, true⟩
+      = ⟨some 5, 2, .file, 9, true⟩ := by
+  refine ⟨by simp [AttrDisjoint], by decide⟩
+
+/-! ### exactly when a conflict is reported -/
+
+/-- an attribute merges cleanly iff the two sides did not both change it, differently -/
+def Clean {α : Type} (b o t : α) : Prop := o = b ∨ t = b ∨ t = o
+
+theorem threeWay_conflict_iff {α : Type} [DecidableEq α] (b o t : α) :
+    threeWay b o t = .conflict ↔ ¬ Clean b o t := by
+  unfold threeWay Clean; grind
+
+/-- the merge of one file reports NO attribute-level conflict exactly when OTHER
+left the file alone or each of name, parent and kind+content was changed by at
+most one side (or by both in the same way); in every other case a path /
+contents conflict (or a text merge) is reported — the hypotheses of the four
+laws cannot be dropped -/
+theorem mergeEntry_conflicts_nil_iff (b t o : Option Entry) :
+    (mergeEntry b t o).conflicts = [] ↔
+      o = b ∨ (Clean (b.map (·.name)) (o.map (·.name)) (t.map (·.name)) ∧
+               Clean (b.map (·.parent)) (o.map (·.parent)) (t.map (·.parent)) ∧
+               Clean (pairOf b) (pairOf o) (pairOf t)) := by
+  by_cases hob : o = b
+  · simp [mergeEntry, hob]
+  · simp only [mergeEntry, hob, if_false, assemble_conflicts, false_or, List.append_eq_nil_iff]
+    unfold namesStep contentsStep
+    simp only [pathConf_nil_iff, overrideAbsent_conflict_iff, contentsOn_conflicts_nil_iff, threeWay_conflict_iff,
+      Classical.not_not]
+    by_cases hp : pairOf o = pairOf b
+    · simp [hp, Clean]
+    · simp only [hp, if_false, ne_eq, threeWay_conflict_iff, Classical.not_not, and_assoc]
+
+/-- a conflict of each kind does occur -/
+theorem conflict_kinds_witness :
+    ¬ Clean (some 1) (some 3) (some 2) ∧
+    (mergeEntry (some ⟨some 0, 1, .file, 1, false⟩) (some ⟨some 0, 1, .file, 2, false⟩)
+      (some ⟨some 0, 1, .file, 3, false⟩)).conflicts = [.textMerge] ∧
+    (mergeEntry (some ⟨some 0, 1, .file, 1, false⟩) (some ⟨some 4, 1, .file, 1, false⟩)
+      (some ⟨some 5, 1, .symlink, 3, false⟩)).conflicts = [.path] := by
+  refine ⟨by simp [Clean], by decide, by decide⟩
+
+/-- path-keyed (git) reading of the model: when all entries present at one key
+carry the same name and parent (they are functions of the path), no path
+conflict can arise — conflicts are about kind / contents only -/
+theorem pathKeyed_no_path_conflict (b t o : Option Entry)
+    (hk : ∀ x y, x ∈ [b, t, o] → y ∈ [b, t, o] → ∀ ex ey, x = some ex → y = some ey →
+      ex.name = ey.name ∧ ex.parent = ey.parent) :
+    ConflictKind.path ∉ (mergeEntry b t o).conflicts := by
+  have hcl : ∀ {α : Type} [DecidableEq α] (f : Entry → α), (∀ x y, x ∈ [b, t, o] → y ∈ [b, t, o] → ∀ ex ey,
+      x = some ex → y = some ey → f ex = f ey) → Clean (b.map f) (o.map f) (t.map f) := by
+    intro α _ f hf
+    unfold Clean
+    cases b with
+    | none => cases o with
+      | none => simp
+      | some oe => cases t with
+        | none => simp
+        | some te => right; right; simp [hf (some te) (some oe) (by simp) (by simp) te oe rfl rfl]
+    | some be => cases o with
+      | none => cases t with
+        | none => simp
+        | some te => right; left; simp [hf (some te) (some be) (by simp) (by simp) te be rfl rfl]
+      | some oe => left; simp [hf (some oe) (some be) (by simp) (by simp) oe be rfl rfl]
+  by_cases hob : o = b
+  · simp [mergeEntry, hob]
+  · simp only [mergeEntry, hob, if_false, assemble_conflicts, List.mem_append, not_or]
+    refine ⟨?_, contentsOn_no_path _ _ _⟩
+    unfold namesStep
+    have c1 := hcl (·.name) (fun x y hx hy ex ey h1 h2 => (hk x y hx hy ex ey h1 h2).1)
+    have c2 := hcl (·.parent) (fun x y hx hy ex ey h1 h2 => (hk x y hx hy ex ey h1 h2).2)
+    have n1 : ¬ threeWay (b.map (·.name)) (o.map (·.name)) (t.map (·.name)) = .conflict :=
+      fun h => absurd c1 ((threeWay_conflict_iff _ _ _).mp h)
+    have n2 : ¬ threeWay (b.map (·.parent)) (o.map (·.parent)) (t.map (·.parent)) = .conflict :=
+      fun h => absurd c2 ((threeWay_conflict_iff _ _ _).mp h)
+    simp [overrideAbsent_conflict_iff, n1, n2]
+
+example : ∀ x y, x ∈ [some (⟨some 0, 1, .file, 1, false⟩ : Entry), none, some ⟨some 0, 1, .symlink, 2, false⟩] →
+    y ∈ [some (⟨some 0, 1, .file, 1, false⟩ : Entry), none, some ⟨some 0, 1, .symlink, 2, false⟩] →
+    ∀ ex ey, x = some ex → y = some ey → ex.name = ey.name ∧ ex.parent = ey.parent := by
+  intro x y hx hy ex ey h1 h2
+  simp at hx hy
+  rcases hx with rfl | rfl | rfl <;> rcases hy with rfl | rfl | rfl <;> simp_all <;>
+    (first | (obtain ⟨rfl⟩ := h1; obtain ⟨rfl⟩ := h2; simp) | skip)
+
+/-- `ExecNorm` cannot be dropped from `merge_this_eq_base`: an "executable
+symlink" in OTHER (which no real tree contains: the harness checks that every
+dumped tree is normal) would lose its bit -/
+theorem exec_norm_needed_witness :
+    mergeEntry none none (some ⟨some 0, 1, .symlink, 1, true⟩) ≠ ⟨some ⟨some 0, 1, .symlink, 1, true⟩, []⟩ := by
+  decide
+
+/-! ### the laws on path-keyed (git) trees, for whatever pairing the rename detector reports
+
+`cs` is the list of elements `_entries3` yields.  `IsDiff` states what
+`iter_changes(other vs base)` (dulwich `tree_changes` + `RenameDetector`)
+guarantees about it — the harness checks these conditions on the real
+enumeration of every git case:
+ * only changed things are reported, a copy has a target;
+ * a reported target path exists in OTHER and differs from BASE there; a source path exists in BASE;
+ * the source path of a rename / deletion is vacated in OTHER (or is itself a target);
+ * every path where OTHER differs from BASE is a target or a vacated source. -/
+
+structure IsDiff (base other : Tree) (cs : List PChange) : Prop where
+  changed : ∀ c ∈ cs, c.copied = false → look other c.dst ≠ look base c.src
+  copyTarget : ∀ c ∈ cs, c.copied = true → ∃ oe, look other c.dst = some oe
+  target : ∀ c ∈ cs, ∀ i, c.dst = some i → other i ≠ none ∧ other i ≠ base i
+  source : ∀ c ∈ cs, ∀ i, c.src = some i → base i ≠ none
+  vacated : ∀ c ∈ cs, c.copied = false → ∀ i, c.src = some i → other i = none ∨ ∃ c' ∈ cs, c'.dst = some i
+  complete : ∀ i, other i ≠ base i →
+    (∃ c ∈ cs, c.dst = some i) ∨ (other i = none ∧ ∃ c ∈ cs, c.copied = false ∧ c.src = some i)
+
+/-- entries sit at the path made of their (parent, name) -/
+def PathKeyed (key : Option Id → Nat → Id) (t : Tree) : Prop := ∀ i e, t i = some e → key e.parent e.name = i
+
+theorem look_norm (t : Tree) (hn : ExecNorm t) (p : Option Id) : EntryNorm (look t p) := by
+  cases p with
+  | none => intro x hx; simp [look] at hx
+  | some i => intro x hx hk; exact hn i x hx hk
+
+/-- when every element merges to OTHER's entry at its target path, the placements are OTHER's entries at their own paths -/
+theorem placements_of_results (key : Option Id → Nat → Id) (base this other : Tree) (cs : List PChange)
+    (hk : PathKeyed key other)
+    (hr : ∀ c ∈ cs, (c.result base this other).entry = look other c.dst) :
+    (∀ pe ∈ placements key base this other cs, other pe.1 = some pe.2 ∧ ∃ c ∈ cs, c.dst = some pe.1) ∧
+    (∀ c ∈ cs, ∀ i e, c.dst = some i → other i = some e → (i, e) ∈ placements key base this other cs) := by
+  constructor
+  · intro pe hpe
+    simp only [placements, List.mem_filterMap] at hpe
+    obtain ⟨c, hc, hce⟩ := hpe
+    rw [hr c hc] at hce
+    cases hd : c.dst with
+    | none => simp [hd, look] at hce
+    | some i =>
+      simp only [hd, look] at hce
+      cases ho : other i with
+      | none => simp [ho] at hce
+      | some e =>
+        simp only [ho, Option.map_some, Option.some.injEq] at hce
+        subst hce
+        simp only [hk i e ho]
+        exact ⟨ho, c, hc, hd⟩
+  · intro c hc i e hd ho
+    simp only [placements, List.mem_filterMap]
+    refine ⟨c, hc, ?_⟩
+    rw [hr c hc, hd]
+    simp [look, ho, hk i e ho]
+
+/-- the shape of the merged tree once every element merges to OTHER's entry at its target -/
+theorem applyChanges_of_results (key : Option Id → Nat → Id) (base this other : Tree) (cs : List PChange)
+    (hk : PathKeyed key other) (hd : IsDiff base other cs)
+    (hr : ∀ c ∈ cs, (c.result base this other).entry = look other c.dst) (i : Id) :
+    applyChanges key base this other cs i =
+      if ∃ c ∈ cs, c.dst = some i then other i
+      else if ∃ c ∈ cs, c.removes = some i then none else this i := by
+  obtain ⟨hp1, hp2⟩ := placements_of_results key base this other cs hk hr
+  unfold applyChanges
+  cases hf : (placements key base this other cs).find? (fun pe => pe.1 == i) with
+  | some pe =>
+    have hmem := List.mem_of_find?_eq_some hf
+    have hkey : pe.1 = i := by simpa using List.find?_some hf
+    obtain ⟨ho, c, hc, hcd⟩ := hp1 pe hmem
+    subst hkey
+    have hex : ∃ c ∈ cs, c.dst = some pe.1 := ⟨c, hc, hcd⟩
+    rw [if_pos hex, ho]
+  | none =>
+    have hnot : ¬ ∃ c ∈ cs, c.dst = some i := by
+      rintro ⟨c, hc, hcd⟩
+      obtain ⟨hne, _⟩ := hd.target c hc i hcd
+      cases ho : other i with
+      | none => exact hne ho
+      | some e =>
+        have := hp2 c hc i e hcd ho
+        rw [List.find?_eq_none] at hf
+        have := hf (i, e) this
+        simp at this
+    simp only [hnot, if_false]
+    by_cases hrm : ∃ c ∈ cs, c.removes = some i
+    · have : cs.any (fun c => c.removes == some i) = true := by
+        obtain ⟨c, hc, h⟩ := hrm
+        simp only [List.any_eq_true]; exact ⟨c, hc, by simp [h]⟩
+      simp [this, hrm]
+    · have : cs.any (fun c => c.removes == some i) = false := by
+        simp only [List.any_eq_false]
+        intro c hc h
+        exact hrm ⟨c, hc, by simpa using h⟩
+      simp [this, hrm]
+
+/-- git, THIS = BASE (every file is found at its BASE path): the merged tree is
+OTHER and no element reports a conflict — for renames, copies (exact or
+inexact, whatever their mode bits), additions, deletions and modifications alike -/
+theorem git_merge_this_eq_base (key : Option Id → Nat → Id) (base other : Tree) (cs : List PChange)
+    (hk : PathKeyed key other) (hn : ExecNorm other) (hd : IsDiff base other cs)
+    (hcur : ∀ c ∈ cs, c.copied = false → c.cur = c.src) :
+    applyChanges key base base other cs = other ∧ ∀ c ∈ cs, (c.result base base other).conflicts = [] := by
+  have hres : ∀ c ∈ cs, c.result base base other = ⟨look other c.dst, []⟩ := by
+    intro c hc
+    unfold PChange.result
+    cases hcp : c.copied with
+    | true =>
+      obtain ⟨oe, hoe⟩ := hd.copyTarget c hc hcp
+      rw [hoe]
+      exact mergeChange_copied _ _ oe (hoe ▸ look_norm other hn c.dst)
+    | false =>
+      rw [hcur c hc hcp, mergeChange_ofEntries _ _ _ (hd.changed c hc hcp)]
+      exact mergeEntry_this_eq_base _ _ (look_norm other hn c.dst)
+  refine ⟨?_, fun c hc => by rw [hres c hc]⟩
+  funext i
+  rw [applyChanges_of_results key base base other cs hk hd (fun c hc => by rw [hres c hc]) i]
+  by_cases h1 : ∃ c ∈ cs, c.dst = some i
+  · simp [h1]
+  · simp only [h1, if_false]
+    by_cases h2 : ∃ c ∈ cs, c.removes = some i
+    · simp only [h2, if_true]
+      obtain ⟨c, hc, hrm⟩ := h2
+      have hcp : c.copied = false := by
+        cases h : c.copied with
+        | false => rfl
+        | true => simp [PChange.removes, h] at hrm
+      have hsrc : c.src = some i := by
+        have := hcur c hc hcp
+        simp only [PChange.removes, hcp] at hrm
+        rw [← this]; simpa using hrm
+      rcases hd.vacated c hc hcp i hsrc with h | h
+      · exact h.symm
+      · exact absurd h h1
+    · simp only [h2, if_false]
+      by_cases hob : other i = base i
+      · exact hob.symm
+      · rcases hd.complete i hob with h | ⟨_, c, hc, hcp, hsrc⟩
+        · exact absurd h h1
+        · exact absurd ⟨c, hc, by simp [PChange.removes, hcp, hcur c hc hcp, hsrc]⟩ h2
+
+/-- git, THIS = OTHER (every file OTHER renamed is found at its new path in
+THIS): the merge leaves the tree as it is and reports no conflict -/
+theorem git_merge_identical (key : Option Id → Nat → Id) (base other : Tree) (cs : List PChange)
+    (hk : PathKeyed key other) (hn : ExecNorm other) (hd : IsDiff base other cs)
+    (hcur : ∀ c ∈ cs, c.copied = false → c.cur = c.dst) :
+    applyChanges key base other other cs = other ∧ ∀ c ∈ cs, (c.result base other other).conflicts = [] := by
+  have hres : ∀ c ∈ cs, c.result base other other = ⟨look other c.dst, []⟩ := by
+    intro c hc
+    unfold PChange.result
+    cases hcp : c.copied with
+    | true =>
+      obtain ⟨oe, hoe⟩ := hd.copyTarget c hc hcp
+      rw [hoe]
+      exact mergeChange_copied _ _ oe (hoe ▸ look_norm other hn c.dst)
+    | false =>
+      rw [hcur c hc hcp, mergeChange_ofEntries _ _ _ (hd.changed c hc hcp)]
+      exact mergeEntry_same _ _ (look_norm other hn c.dst)
+  refine ⟨?_, fun c hc => by rw [hres c hc]⟩
+  funext i
+  rw [applyChanges_of_results key base other other cs hk hd (fun c hc => by rw [hres c hc]) i]
+  by_cases h1 : ∃ c ∈ cs, c.dst = some i
+  · simp [h1]
+  · simp only [h1, if_false]
+    by_cases h2 : ∃ c ∈ cs, c.removes = some i
+    · obtain ⟨c, hc, hrm⟩ := h2
+      have hcp : c.copied = false := by
+        cases h : c.copied with
+        | false => rfl
+        | true => simp [PChange.removes, h] at hrm
+      simp only [PChange.removes, hcp] at hrm
+      exact absurd ⟨c, hc, by rw [← hcur c hc hcp]; simpa using hrm⟩ h1
+    · simp [h2]
+
+/-- git, disjoint changes (per path one side equals BASE, and THIS still has the
+files OTHER changed where BASE has them): the merged tree is the union of both
+sides' changes, without conflicts -/
+theorem git_merge_disjoint (key : Option Id → Nat → Id) (base this other : Tree) (cs : List PChange)
+    (hk : PathKeyed key other) (hn : ExecNorm other) (hd : IsDiff base other cs)
+    (hdis : ∀ i, this i = base i ∨ other i = base i)
+    (hcur : ∀ c ∈ cs, c.copied = false → c.cur = c.src ∧ look this c.src = look base c.src) :
+    applyChanges key base this other cs = union base this other ∧
+      ∀ c ∈ cs, (c.result base this other).conflicts = [] := by
+  have hres : ∀ c ∈ cs, c.result base this other = ⟨look other c.dst, []⟩ := by
+    intro c hc
+    unfold PChange.result
+    cases hcp : c.copied with
+    | true =>
+      obtain ⟨oe, hoe⟩ := hd.copyTarget c hc hcp
+      rw [hoe]
+      exact mergeChange_copied _ _ oe (hoe ▸ look_norm other hn c.dst)
+    | false =>
+      rw [(hcur c hc hcp).1, (hcur c hc hcp).2, mergeChange_ofEntries _ _ _ (hd.changed c hc hcp)]
+      exact mergeEntry_this_eq_base _ _ (look_norm other hn c.dst)
+  refine ⟨?_, fun c hc => by rw [hres c hc]⟩
+  funext i
+  rw [applyChanges_of_results key base this other cs hk hd (fun c hc => by rw [hres c hc]) i]
+  unfold union
+  by_cases h1 : ∃ c ∈ cs, c.dst = some i
+  · obtain ⟨c, hc, hcd⟩ := h1
+    have := (hd.target c hc i hcd).2
+    simp [this, show ∃ c ∈ cs, c.dst = some i from ⟨c, hc, hcd⟩]
+  · simp only [h1, if_false]
+    by_cases h2 : ∃ c ∈ cs, c.removes = some i
+    · simp only [h2, if_true]
+      obtain ⟨c, hc, hrm⟩ := h2
+      have hcp : c.copied = false := by
+        cases h : c.copied with
+        | false => rfl
+        | true => simp [PChange.removes, h] at hrm
+      have hsrc : c.src = some i := by
+        simp only [PChange.removes, hcp] at hrm
+        rw [← (hcur c hc hcp).1]; simpa using hrm
+      have hb := hd.source c hc i hsrc
+      rcases hd.vacated c hc hcp i hsrc with h | h
+      · have hne : other i ≠ base i := fun e => hb (e ▸ h)
+        rw [if_neg hne, h]
+      · exact absurd h h1
+    · simp only [h2, if_false]
+      by_cases hob : other i = base i
+      · simp [hob]
+      · rcases hd.complete i hob with h | ⟨_, c, hc, hcp, hsrc⟩
+        · exact absurd h h1
+        · exact absurd ⟨c, hc, by simp [PChange.removes, hcp, (hcur c hc hcp).1, hsrc]⟩ h2
+
+/-- git, OTHER = BASE: nothing is reported, nothing happens -/
+theorem git_merge_other_eq_base (key : Option Id → Nat → Id) (base this other : Tree) :
+    applyChanges key base this other [] = this := by
+  funext i; simp [applyChanges, placements]
+
+/-- non-vacuity: BASE has an executable `1`; OTHER modifies it and adds a
+non-executable copy at `2` (`key p n = n`): `IsDiff` holds for the enumeration
+[modify 1, copy 1→2] and the merge of it into THIS = BASE gives OTHER -/
+example :
+    let key : Option Id → Nat → Id := fun _ n => n
+    let base : Tree := fun i => if i = 1 then some ⟨none, 1, .file, 1, true⟩ else none
+    let other : Tree := fun i => if i = 1 then some ⟨none, 1, .file, 2, true⟩
+      else if i = 2 then some ⟨none, 2, .file, 1, false⟩ else none
+    let cs : List PChange := [⟨some 1, some 1, some 1, false⟩, ⟨some 1, some 2, some 1, true⟩]
+    PathKeyed key other ∧ ExecNorm other ∧ IsDiff base other cs ∧
+      (∀ c ∈ cs, c.copied = false → c.cur = c.src) ∧ applyChanges key base base other cs 2 = other 2 := by
+  intro key base other cs
+  refine ⟨?_, ?_, ⟨?_, ?_, ?_, ?_, ?_, ?_⟩, ?_, by decide⟩
+  · intro i e h
+    by_cases h1 : i = 1 <;> by_cases h2 : i = 2 <;> simp_all [other, key] <;> (subst h; simp)
+  · intro i e h hk
+    by_cases h1 : i = 1 <;> by_cases h2 : i = 2 <;> simp_all [other] <;> (subst h; simp_all)
+  · intro c hc hcp; simp [cs] at hc; rcases hc with rfl | rfl <;> simp_all [look, base, other]
+  · intro c hc hcp; simp [cs] at hc; rcases hc with rfl | rfl <;> simp_all [look, other]
+  · intro c hc i hi; simp [cs] at hc; rcases hc with rfl | rfl <;> simp at hi <;> subst hi <;> simp [base, other]
+  · intro c hc i hi; simp [cs] at hc; rcases hc with rfl | rfl <;> simp at hi <;> subst hi <;> simp [base]
+  · intro c hc hcp i hi; simp [cs] at hc; rcases hc with rfl | rfl
+    · simp at hi; subst hi; right; exact ⟨⟨some 1, some 1, some 1, false⟩, by simp [cs], rfl⟩
+    · simp at hcp
+  · intro i hi
+    by_cases h1 : i = 1
+    · left; exact ⟨⟨some 1, some 1, some 1, false⟩, by simp [cs], by simp [h1]⟩
+    · by_cases h2 : i = 2
+      · left; exact ⟨⟨some 1, some 2, some 1, true⟩, by simp [cs], by simp [h2]⟩
+      · simp [base, other, h1, h2] at hi
+  · intro c hc hcp; simp [cs] at hc; rcases hc with rfl | rfl <;> simp_all
 
 end BreezyVerif.C17
